@@ -306,24 +306,27 @@ func c18r3(c *Ctx, id string) {
 		if which == "" || which == "Build" {
 			return
 		}
-		// the error branch returns a non-nil error
+		// the error branch returns a non-nil error: some return carrying an error sits where this Atoi's error is
+		// known to be non-nil, and no success return does
 		ers := errResults(call)
-		okErr := false
+		okErr, swallowed := false, false
 		if len(ers) > 0 {
-			for _, r := range *ers[0].Referrers() {
-				if b, isB := r.(*ssa.BinOp); isB {
-					for _, rr := range *b.Referrers() {
-						if ifi, isIf := rr.(*ssa.If); isIf {
-							for _, x := range ifi.Block().Succs[0].Instrs {
-								if ret, isRet := x.(*ssa.Return); isRet && len(ret.Results) == 2 && !isNilConst(ret.Results[1]) {
-									okErr = true
-								}
-							}
-						}
+			e := ers[0]
+			allInstrs(fn, func(in2 ssa.Instruction) {
+				ret, isRet := in2.(*ssa.Return)
+				if !isRet || len(ret.Results) != 2 || deadBlock(in2.Block()) {
+					return
+				}
+				if errGuard(in2.Block(), false, func(v ssa.Value) bool { return v == e }) {
+					if isNilConst(ret.Results[1]) {
+						swallowed = true
+					} else {
+						okErr = true
 					}
 				}
-			}
+			})
 		}
+		okErr = okErr && !swallowed
 		c.Check(okErr, id, "error:"+which, in.Pos(), "a non-numeric "+which+" is an error", "a non-numeric "+which+" is silently accepted")
 	})
 }
